@@ -22,6 +22,7 @@ SPECIAL = {"MAX_DT": (MAX_DT, MAX_DT_VALUE, lambda lo, hi: hi),
            "INVALID_CURSOR": (INVALID_CURSOR, 2 ** 64 - 1, lambda lo, hi: hi + 1)}
 
 PROVE_MS = int(os.environ.get("CXXVC_PROVE_MS", "20000"))
+QUICK_MS = int(os.environ.get("CXXVC_QUICK_MS", "4000"))
 REFUTE_MS = int(os.environ.get("CXXVC_REFUTE_MS", "20000"))
 CVC5_BIN = "/usr/bin/cvc5"
 
@@ -123,6 +124,9 @@ def work(job):
     if r == z3.unsat:
         res.update(status="discharged", solver="z3")
         return res
+    if job.get("mode") == "prove":
+        res.update(status="undecided", detail="phase A: %s" % r)
+        return res
     proof_model = None
     if r == z3.sat:
         # quantifier-free or MBQI-complete: genuine counter-model already
@@ -214,7 +218,11 @@ def cvc5_check(smt2, ms):
 
 
 def discharge_all(obligs, scope=None, jobs=16, want_refute=True, second_solver=False, scopes=None):
-    """obligs: list of interp.Obligation.  Returns list of result dicts (same order)."""
+    """obligs: list of interp.Obligation.  Returns list of result dicts (same order).
+
+    Phase A proves every (unique) query with a short budget; phase B gives the ones left the full
+    budget plus finite-scope refutation, one obligation name at a time, stopping a name at its first
+    refuted instance (the remaining instances of that name are reported as 'skipped-after-refutation')."""
     jl = []
     for i, ob in enumerate(obligs):
         s = ob.claim if z3.is_quantifier(ob.claim) else z3.simplify(ob.claim)
@@ -222,8 +230,7 @@ def discharge_all(obligs, scope=None, jobs=16, want_refute=True, second_solver=F
             jl.append(None)
             continue
         jl.append({"id": i, "smt2": to_smt2(ob.hyps, ob.claim), "scope": scopes[i] if scopes else scope,
-                   "want_refute": want_refute})
-    # identical queries (same path prefix re-executed on sibling paths) are solved once
+                   "want_refute": want_refute, "name": (getattr(ob, "kernel", ""), ob.name)})
     first = {}
     dup = {}
     for j in jl:
@@ -241,14 +248,53 @@ def discharge_all(obligs, scope=None, jobs=16, want_refute=True, second_solver=F
             results[i] = {"id": i, "status": "discharged", "solver": "simplifier", "time_s": 0.0, "model": None,
                           "detail": "trivial"}
     if todo:
-        if jobs > 1 and len(todo) > 1:
-            with ProcessPoolExecutor(max_workers=min(jobs, len(todo))) as ex:
-                for r in ex.map(work, todo, chunksize=max(1, len(todo) // (jobs * 4))):
-                    results[r["id"]] = r
-        else:
-            for j in todo:
-                r = work(j)
-                results[r["id"]] = r
+        ex = ProcessPoolExecutor(max_workers=jobs) if jobs > 1 else None
+        try:
+            # ---- phase A
+            a_jobs = [dict(j, mode="prove", prove_ms=QUICK_MS) for j in todo]
+            if ex is not None:
+                ares = list(ex.map(work, a_jobs, chunksize=max(1, len(a_jobs) // (jobs * 8))))
+            else:
+                ares = [work(j) for j in a_jobs]
+            left = []
+            for j, r in zip(todo, ares):
+                if r["status"] == "discharged":
+                    results[j["id"]] = r
+                else:
+                    left.append(j)
+            # ---- phase B
+            groups = {}
+            for j in left:
+                groups.setdefault(j["name"], []).append(j)
+            pending = {nm: list(js) for nm, js in groups.items()}
+            refuted = set()
+            while any(pending.values()):
+                batch = []
+                for nm, js in pending.items():
+                    if nm in refuted:
+                        continue
+                    batch += js[:2]
+                    pending[nm] = js[2:]
+                for nm in refuted:
+                    for j in pending.get(nm, []):
+                        results[j["id"]] = {"id": j["id"], "status": "skipped-after-refutation", "solver": None,
+                                            "time_s": 0.0, "model": None, "detail": "same obligation already refuted"}
+                    pending[nm] = []
+                if not batch:
+                    break
+                b_jobs = [dict(j, mode="full") for j in batch]
+                bres = list(ex.map(work, b_jobs)) if ex is not None else [work(j) for j in b_jobs]
+                for j, r in zip(batch, bres):
+                    results[j["id"]] = r
+                    if r["status"] == "refuted":
+                        refuted.add(j["name"])
+            for nm in refuted:
+                for j in pending.get(nm, []):
+                    results[j["id"]] = {"id": j["id"], "status": "skipped-after-refutation", "solver": None,
+                                        "time_s": 0.0, "model": None, "detail": "same obligation already refuted"}
+        finally:
+            if ex is not None:
+                ex.shutdown()
     for i, src in dup.items():
         r = dict(results[src])
         r["id"] = i
@@ -256,7 +302,7 @@ def discharge_all(obligs, scope=None, jobs=16, want_refute=True, second_solver=F
         results[i] = r
     if second_solver:
         for i, j in enumerate(jl):
-            if j is None or results[i]["status"] != "discharged":
+            if j is None or results[i]["status"] != "discharged" or i in dup:
                 continue
             c = cvc5_check(j["smt2"], PROVE_MS)
             results[i]["cvc5"] = c
